@@ -134,7 +134,9 @@ def rest(ctx, chk, zvt, crates):
         g1, _ = pr.prove_nonneg(L3.add(Llen, -1), b3)
         g2, _ = pr.prove_nonneg(Llen.add(L3, -1), b3)
         good3 = g1 and g2
-        defs = [vx.rvalue(d[3]["rv"], d[0]) if d[2] == "assign" else vx._call(d[3], d[0], 0)
+        from expr import simplify as _simp
+        from discharge import norm_try as _nt, unq as _unq
+        defs = [_unq(vx.rvalue(d[3]["rv"], d[0])) if d[2] == "assign" else _unq(_simp(_nt(vx._call(d[3], d[0], 0))))
                 for d in pr.tr.defs.get(lens[0], []) if d[2] in ("assign", "call")]
         kinds = set()
         for e in defs:
